@@ -144,6 +144,8 @@ func envOf0(id int) map[string]any {
 		"hx": "0x10", "und": "1_000", "b11": "0b11", "o7": "0o7", "lsp": " 42", "isp": "4 2",
 		"t": r.t, "u": r.u, "off": false,
 		"big": int64(1234567),
+		// index / key variables for computed steps: xs[ix], m[kk]
+		"ix": []int{1, 0, 1}[id%nEnvs], "kk": "name", "kx": "k", "kb": "ok",
 		"m": map[string]any{"k": r.k, "name": r.name, "ok": r.ok, "rate": r.rate,
 			"inner": map[string]any{"x": r.x, "s": r.deep},
 			// hyphenated keys (only vuego's own path walker reads m.first-name as a path)
@@ -167,11 +169,11 @@ func envOf0(id int) map[string]any {
 
 // typed catalogue of the paths (the static type of each is the same in every environment)
 var (
-	intPaths    = []string{"a", "b", "z", "n", "m.k", `m["k"]`, `m['k']`, "m.inner.x", `m["inner"].x`, "xs[0]", "xs[2]", "st.Age", "st.In.X", "us[0].age", "us[1].age", "rs[0].Age", `errs['item[0][id]']`, `errs["item[0][id]"]`, `errs['sub[x]'].n`, `errs["sub[x]"]["n"]`}
+	intPaths    = []string{"a", "b", "z", "n", "m.k", `m["k"]`, `m['k']`, "m.inner.x", `m["inner"].x`, "xs[0]", "xs[2]", "st.Age", "st.In.X", "us[0].age", "us[1].age", "rs[0].Age", "xs[ix]", "m[kx]", "us[ix].age", `errs['item[0][id]']`, `errs["item[0][id]"]`, `errs['sub[x]'].n`, `errs["sub[x]"]["n"]`}
 	floatPaths  = []string{"f", "g", "zf", "m.rate", `m['rate']`, "fs[0]", "fs[1]", "st.Score", "rs[0].Score"}
-	stringPaths = []string{"s", "h", "e", "num", "m.name", `m["name"]`, `m['name']`, "m.inner.s", "ss[0]", "ss[1]", "st.Name", "st.In.S", "us[0].name", "us[1].name", "rs[0].Name", "sp", "sp2", "spl", "spt",
+	stringPaths = []string{"s", "h", "e", "num", "m.name", `m["name"]`, `m['name']`, "m.inner.s", "ss[0]", "ss[1]", "st.Name", "st.In.S", "us[0].name", "us[1].name", "rs[0].Name", "sp", "sp2", "spl", "spt", "ss[ix]", "m[kk]", "us[ix].name",
 		`errs['user[email]']`, `errs["user[email]"]`, `errs['tags[]']`, `errs["tags[]"]`, `errs['a.b']`, `errs["a.b"]`, `errs['two words']`, `errs["it's"]`, `errs['say "hi"']`, `errs['[']`, `errs["]"]`, `errs['sub[x]'].s`, `errs["sub[x]"]['k.e-y']`, `errs['sub[x]']["s"]`}
-	boolPaths = []string{"t", "u", "off", "m.ok", `m["ok"]`, "bs[0]", "bs[1]", "st.Ok", "us[0].admin", "us[1].admin", "rs[0].Ok", `errs['ok[]']`, `errs["ok[]"]`}
+	boolPaths = []string{"t", "u", "off", "m.ok", `m["ok"]`, "bs[0]", "bs[1]", "st.Ok", "us[0].admin", "us[1].admin", "rs[0].Ok", "bs[ix]", "m[kb]", `errs['ok[]']`, `errs["ok[]"]`}
 	listPaths = []string{"xs", "ss", "fs", "bs"}
 	mapPaths  = []string{"m", "m.inner", "us[0]", `errs['sub[x]']`, `errs["sub[x]"]`}
 	// never zero in any environment (divisors)
@@ -214,7 +216,16 @@ func resolve(env map[string]any, path string) (any, bool) {
 			if j < 0 {
 				return nil, false
 			}
-			steps = append(steps, path[i+1:i+j])
+			in := path[i+1 : i+j]
+			if in != "" && (in[0] < '0' || in[0] > '9') {
+				// computed step: items[i], m[key] - the value of the variable is the index / key
+				v, ok := resolve(env, in)
+				if !ok {
+					return nil, false
+				}
+				in = fmt.Sprint(v)
+			}
+			steps = append(steps, in)
 			i += j + 1
 		default:
 			return nil, false
